@@ -1,0 +1,40 @@
+//go:build verif
+
+package nsx
+
+// Exports for the verification harness of property C18 (merge of IPv4, IPv6
+// and raw configuration). Added file only; not part of the normal build.
+
+import "github.com/hknutzen/Netspoc-Approve/go/pkg/deviceconf"
+
+type VerifC18Policy struct {
+	Id    string
+	Rules []string // ids of rules in stored order
+}
+
+type VerifC18Conf struct {
+	Policies []VerifC18Policy
+	Groups   []string
+	Services []string
+}
+
+// VerifC18Dump shows what MergeSpoc looks at: policies with the ids of their
+// rules, ids of groups and services, all in stored order.
+func VerifC18Dump(c deviceconf.Config) VerifC18Conf {
+	n := c.(*NsxConfig)
+	var r VerifC18Conf
+	for _, p := range n.Policies {
+		dp := VerifC18Policy{Id: p.Id}
+		for _, ru := range p.Rules {
+			dp.Rules = append(dp.Rules, ru.Id)
+		}
+		r.Policies = append(r.Policies, dp)
+	}
+	for _, g := range n.Groups {
+		r.Groups = append(r.Groups, g.Id)
+	}
+	for _, s := range n.Services {
+		r.Services = append(r.Services, s.Id)
+	}
+	return r
+}
